@@ -312,7 +312,7 @@ void SocketTlsImpl::Connect(SockAddrView const &connectAddr)
   // the TLS handshake will be performed during Send/Receive
 }
 
-void SocketTlsImpl::DriverQuery(short &events)
+bool SocketTlsImpl::DriverQuery(short &events)
 {
   if(!SSL_is_init_finished(ssl.get())) {
     if(lastError == SSL_ERROR_WANT_WRITE) {
@@ -328,6 +328,10 @@ void SocketTlsImpl::DriverQuery(short &events)
     driverSendSuppressed = false;
     events |= POLLOUT;
   }
+
+  // decrypted data left over from a previous receive (receive buffer smaller
+  // than the TLS record) is not announced by the underlying socket anymore
+  return (SSL_pending(ssl.get()) > 0);
 }
 
 void SocketTlsImpl::DriverPending()
